@@ -93,6 +93,18 @@ func init() {
 				}
 			}
 			ts = append(ts, Task{Func: "VerifC16ArrayXorEmpty"})
+			grown := []int64{0, 1, 7, 8, 31, 32, 33, 49, 63, 64, 65, 97, 128, 129}
+			if tier == "thorough" {
+				grown = nil
+				for n := int64(0); n <= 160; n++ {
+					grown = append(grown, n)
+				}
+			}
+			for _, n := range grown {
+				for st := int64(0); st < 3; st++ {
+					ts = append(ts, Task{Func: "VerifC16ArrayGrown", Args: ints(n, st), Note: "bits appended to NewEmptyBitArray (free), growth style (single bits, 8-bit chunks, AppendBitArray); then queries, Xor, Reverse, AppendBit"})
+				}
+			}
 			return ts
 		},
 		Bounds: func(tier string) map[string]interface{} {
